@@ -15,10 +15,10 @@
       ∧ (∀ i s r, cnv i s = .ok r → cnv i r = .ok r)               -- converting again is a no-op
       ∧ (∀ validated kind K, cnvK K s = if s ∈ L(K) then .ok s else .error .valueError)
 
-  Proved: the third conjunct in full (`validated_full`, `validated_table`); the second for every
-  converter except `cnv_NCNames` (`idempotent_partial` + counter-example `finding_NCNames_not_idempotent`);
-  the first for every occurrence outside the eight (converter, datatype) cells of `knownCells`
-  (`binding_compatible`), each with a proved counter-example (`finding_*`).
+  Proved: the third conjunct in full (`validated_full`, `validated_table`); the second in full
+  (`idempotent`, every converter of the regenerated table); the first for every occurrence outside
+  the four (converter, datatype) cells of `knownCells` (`binding_compatible`), each with a proved
+  counter-example (`finding_*`).
 
   `Lex` is the set of *canonical* lexical forms of a datatype (no insignificant outer white space
   for token-typed values); for XSD built-in types without a modelled grammar it is an upper bound
@@ -291,33 +291,26 @@ theorem idempotent_kind (K : Kind) (h : okKind K = true) {s r : Str} (hr : cnvK 
   | joinChars sep => simp [okKind] at h
   | unknown => simp [cnvK] at hr
 
-/-- every converter of the regenerated table except `cnv_NCNames` satisfies the sufficient condition -/
-theorem idempotent_table :
-    (AttrConv.converters.all fun p => p.1 == "cnv_NCNames" || okKind p.2) = true := by decide +kernel
+/-- every converter of the regenerated table satisfies the sufficient condition -/
+theorem idempotent_table : (AttrConv.converters.all fun p => okKind p.2) = true := by decide +kernel
 
-/-- **C15 (second conversion is a no-op)** — partial: every modelled converter except `cnv_NCNames`
-    (whose `' '.join(arg)` re-spaces a string on every store, see `finding_NCNames_not_idempotent`). -/
-theorem idempotent_partial (i : Nat) (name : String) (K : Kind)
-    (hi : AttrConv.converters[i]? = some (name, K)) (hn : name ≠ "cnv_NCNames")
-    (s r : Str) (h : cnv i s = .ok r) : cnv i r = .ok r := by
-  have hmem : (name, K) ∈ AttrConv.converters := List.mem_of_getElem? hi
-  have ht := idempotent_table
-  simp only [List.all_eq_true] at ht
-  have := ht (name, K) hmem
-  simp only [Bool.or_eq_true, beq_iff_eq] at this
-  have hk : okKind K = true := by
-    rcases this with h' | h'
-    · exact absurd h' hn
-    · exact h'
-  have hkind : kindOf i = K := by simp [kindOf, hi]
-  simp only [cnv, hkind] at h ⊢
-  exact idempotent_kind K hk h
+/-- **C15 (second conversion is a no-op)**: for every converter of the table regenerated from the source,
+    converting a stored value again returns it unchanged. -/
+theorem idempotent (i : Nat) (s r : Str) (h : cnv i s = .ok r) : cnv i r = .ok r := by
+  cases hi : AttrConv.converters[i]? with
+  | none => simp [cnv, kindOf, hi, cnvK] at h
+  | some p =>
+    have hmem : p ∈ AttrConv.converters := List.mem_of_getElem? hi
+    have ht := idempotent_table
+    simp only [List.all_eq_true] at ht
+    have hk : okKind p.2 = true := ht p hmem
+    have hkind : kindOf i = p.2 := by simp [kindOf, hi]
+    simp only [cnv, hkind] at h ⊢
+    exact idempotent_kind p.2 hk h
 
-/-- counter-example for the excluded converter: `text:class-names="ab"` is stored as `a b`, and
-    storing that value again gives `a   b` -/
-theorem finding_NCNames_not_idempotent :
-    cnv AttrConv.c_cnv_NCNames (lit "ab") = .ok (lit "a b") ∧
-    cnv AttrConv.c_cnv_NCNames (lit "a b") = .ok (lit "a   b") := by decide +kernel
+example : cnv AttrConv.c_cnv_NCNames (lit "P1 P2") = .ok (lit "P1 P2") := by decide +kernel
+example : cnv AttrConv.c_cnv_boolean (lit "TRUE") = .ok (lit "true") ∧
+    cnv AttrConv.c_cnv_boolean (lit "true") = .ok (lit "true") := by decide +kernel
 
 /-! ## 4. The code's regexes against the schema's own pattern facets -/
 
@@ -547,22 +540,14 @@ def dtOf (i : Nat) : DT :=
     datatype.  Each is a defect of the unchanged tree recorded in known-findings/C15.txt and shown by a
     proved counter-example below; any other incompatible cell breaks `cells_ok`. -/
 def knownCells : List (Nat × DT) := [
-  -- KF-C15-1  draw:name, form:name … are `string` in the schema but bound to cnv_NCName (make_NCName mangles ' ' and ':')
+  -- KF-C15-1  draw:name on 21 shape/page/layer elements is `string` in the schema but bound to cnv_NCName (make_NCName mangles ' ' and ':')
   (AttrConv.c_cnv_NCName, [.data .string none]),
-  -- KF-C15-2  *:class-names (styleNameRefs = list of NCName) bound to cnv_NCNames = ' '.join(str)
-  (AttrConv.c_cnv_NCNames, [.list]),
-  -- KF-C15-3  dr3d:lighting-mode on style:graphic-properties is an enumeration, bound to cnv_boolean
-  (AttrConv.c_cnv_boolean, [.val (lit "double-sided"), .val (lit "standard")]),
-  -- KF-C15-4  form:list-linkage-type: schema says 'selection-indexes', code says 'selection-indices'
-  (AttrConv.c_cnv_list_linkage_type, [.val (lit "selection"), .val (lit "selection-indexes")]),
   -- KF-C15-5  attributes typed `length | percent` bound to cnv_length
   (AttrConv.c_cnv_length, [.data .string (some AttrSchema.sp_percent), .data .string (some AttrSchema.sp_length)]),
   -- KF-C15-6  namespacedToken = xsd:QName (prefix optional, any NCName characters); code wants ASCII prefix:local
   (AttrConv.c_cnv_namespacedToken, [.data .QName none]),
   -- KF-C15-7  svg:viewBox = list of four xsd:integer (sign '+', any XML white space); code wants -?digits and blanks
-  (AttrConv.c_cnv_viewbox, [.list]),
-  -- KF-C15-8  xlink:show='none' (db:component, db:connection-resource) is not in cnv_xlinkshow's tuple
-  (AttrConv.c_cnv_xlinkshow, [.val (lit "none")])
+  (AttrConv.c_cnv_viewbox, [.list])
 ]
 
 def knownCell (c : Nat × Nat) : Bool := knownCells.any fun k => k.1 == c.1 && k.2 == dtOf c.2
@@ -643,7 +628,7 @@ theorem kind_identity_of_lt {i : Nat} (h : i < AttrConv.nIdentity) : isIdentity 
 /-- **C15 (binding_compatible)**: for every attribute occurrence `(element, attribute, datatype)` of the
     shipped schema, the converter that `AttrConverters.convert` selects for `(attribute, element)` accepts
     every lexical value of the datatype and returns it unchanged — or the (converter, datatype) cell is one
-    of the eight recorded findings. -/
+    of the four recorded findings. -/
 theorem binding_compatible :
     ∀ t ∈ AttrTable.attrTable, ∀ o ∈ t.2.2,
       Compatible (kindOf (convertIdx AttrTable.bindings t.1 o.1)) (dtOf o.2) ∨
@@ -677,16 +662,6 @@ example : ∃ t ∈ AttrTable.attrTable, ∃ o ∈ t.2.2,
 theorem finding_name_mangled :
     Lex [.data .string none] (lit "My Shape 1") = true ∧
     cnv AttrConv.c_cnv_NCName (lit "My Shape 1") = .ok (lit "My_20_Shape_20_1") := by decide +kernel
-/-- KF-C15-2: see `finding_NCNames_not_idempotent` -/
-theorem finding_class_names_spaced :
-    cnv AttrConv.c_cnv_NCNames (lit "P1 P2") = .ok (lit "P 1   P 2") := by decide +kernel
-/-- KF-C15-3 -/
-theorem finding_lighting_mode :
-    Lex [.val (lit "double-sided"), .val (lit "standard")] (lit "standard") = true ∧
-    cnv AttrConv.c_cnv_boolean (lit "standard") = .error .valueError := by decide +kernel
-/-- KF-C15-4 -/
-theorem finding_list_linkage_type :
-    cnv AttrConv.c_cnv_list_linkage_type (lit "selection-indexes") = .error .valueError := by decide +kernel
 /-- KF-C15-5: a percentage on an attribute typed `length | percent` bound to `cnv_length` -/
 theorem finding_length_or_percent :
     Lex [.data .string (some AttrSchema.sp_percent), .data .string (some AttrSchema.sp_length)] (lit "50%") = true ∧
@@ -697,8 +672,5 @@ theorem finding_qname_unprefixed :
 /-- KF-C15-7: a view box written with an explicit plus sign -/
 theorem finding_viewbox_plus :
     cnv AttrConv.c_cnv_viewbox (lit "+0 0 10 10") = .error .valueError := by decide +kernel
-/-- KF-C15-8 -/
-theorem finding_xlink_show_none :
-    cnv AttrConv.c_cnv_xlinkshow (lit "none") = .error .valueError := by decide +kernel
 
 end OdfModel.Props.C15
